@@ -7,7 +7,12 @@ def adtName : Adt → String
   | .SendFuture => "SendFuture" | .ReceiveFuture => "ReceiveFuture" | .ReceiveStream => "ReceiveStream"
   | _ => "?"
 
-def main : IO Unit := do
+def main (args : List String) : IO Unit := do
+  if args == ["unpin"] then
+    for u in [true, false] do
+      for a in handles ++ futures do
+        IO.println s!"{adtName a} {u} unpin {verdictUnpin u a}"
+    return
   for (s, y) in [(true, true), (true, false), (false, true), (false, false)] do
     for a in handles ++ futures do
       IO.println s!"{adtName a} {s} {y} send {verdict s y .send a}"
